@@ -241,10 +241,10 @@ func Gen(t *simrt.Tape, prof string) *Scenario {
 	sc.Bounce = t.Choose(st, 6) != 0
 	sc.Concurrent = t.Choose(st, 2) == 1
 	sc.FaultNum = []int{0, 2, 4, 8}[t.Choose(st, 4)]
-	if prof == "c02" || prof == "c12" || prof == "c18" {
+	if prof == "c02" || prof == "c12" || prof == "c18" || prof == "c16" {
 		sc.Bounce = true
 	}
-	if prof == "c18" && sc.FaultNum < 4 {
+	if (prof == "c18" || prof == "c16") && sc.FaultNum < 4 {
 		sc.FaultNum = 8
 	}
 	for i := 0; i < nm; i++ {
